@@ -1,6 +1,10 @@
 package c20
 
-import "testing"
+import (
+	"testing"
+
+	"verifharness/internal/stats"
+)
 
 // D26: BackgroundWorker checked the stopped flag before taking the lock. A registration that passed the check and got
 // the lock after the shutdown had collected the workers was added and started but never cancelled (ShutdownAndWait
@@ -24,4 +28,34 @@ func TestRegressionRunWaitsForWorkersAddedLater(t *testing.T) {
 		runScenario(t, scenario{Workers: []wspec{{Name: "w0", Order: -1, When: "pre", Beh: "hold"}, {Name: "w1", Order: -2, When: "run", Beh: "hold"}},
 			StartMode: "run", Callers: []string{"saw"}})
 	}
+}
+
+// TestKnownRunWaitGroupReuse (thorough tier only) aims at the proposed open known finding KF-C20-1 without excluding its
+// signature: Run is waiting while the only worker of an order finishes and the name is registered again under the same
+// order. A recovered sync.WaitGroup panic of Run is reported with stats.Known and never fails the test; anything else
+// the oracle finds in these scenarios is a violation as usual.
+func TestKnownRunWaitGroupReuse(t *testing.T) {
+	const check = "known_run_waitgroup_reuse"
+	stats.Rule(check, "fixed scenario (Run in its own goroutine, one held worker of order 1, one worker of order 0 that finishes and is re-registered under order 0) repeated; counts how often Run panics inside sync.WaitGroup")
+	sc := scenario{Workers: []wspec{{Name: "w0", Order: 0, When: "pre", Beh: "early_rereg", ReOrder: 0, ReBeh: "immediate"}, {Name: "w1", Order: 1, When: "pre", Beh: "hold"}},
+		StartMode: "run", Callers: []string{"saw"}}
+	n := stats.Scale(200, 20000)
+	seen := 0
+	for i := 0; i < n; i++ {
+		known := false
+		labels := map[string]bool{}
+		nontrivial := false
+		failure := execScenario(sc, labels, &nontrivial, true, &known)
+		if known {
+			seen++
+			stats.Known(knownRunWaitGroupReuse)
+			stats.Label(check, "run_panicked_in_waitgroup")
+		} else if failure != "" {
+			stats.Violation(check, map[string]any{"scenario": sc, "failure": failure})
+			t.Fatalf("%s: %s", check, failure)
+		}
+	}
+	stats.Bulk(check, int64(n), 0, false, sc)
+	stats.Note(check, "run_panics_observed", seen)
+	t.Logf("Run panicked inside sync.WaitGroup in %d of %d repetitions", seen, n)
 }
